@@ -154,10 +154,11 @@ def native_renaming(run, n_models):
 
 
 def triage(run, rep):
-    for ob in rep.obligations:
-        if ob.result.status == "sat":
-            payload = {"language": "python", "function": rep.key, "solver_result": "sat", "counter_model": smt.model_to_dict(ob.result.model), "note": "replayed by the native construction sweep (same run)"}
-            run.findings.append(Finding(ob.name, rep.key.split(":")[-1], f"{ob.name} refuted: {smt.model_to_dict(ob.result.model, 8)}", payload, False, theory="interp"))
+    for ob, model, definitive in driver.refuted(run, rep):
+        payload = {"language": "python", "function": rep.key, "solver_result": "sat" if definitive else "unknown (candidate model of the quantifier-free part)", "counter_model": smt.model_to_dict(model), "note": "replayed by the native construction sweep (same run)"}
+        f = Finding(ob.name, rep.key.split(":")[-1], f"{ob.name} refuted: {smt.model_to_dict(model, 8)}", payload, False, theory="interp")
+        f.definitive = definitive
+        run.findings.append(f)
 
 
 def check(run):
@@ -168,9 +169,14 @@ def check(run):
     for c in (pyekf.MakeReading("none"), pyekf.MakeReading("given")):
         rep = run.verify(c, cs)
         triage(run, rep)
+    rep = run.verify(pyekf.SensorModelInit(), pyekf.sensor_init_callees())
+    triage(run, rep)
+    for c in (pyekf.ModelModel(False), pyekf.SensorModelModel()):
+        rep = run.verify(c, pyekf.filter_callees())
+        triage(run, rep)
     renaming_lemma(run)
     refuted = bool(run.findings)
-    if run.tier == "thorough" or refuted or any(r.status != "ok" for r in run.reports):
+    if run.tier == "thorough" or refuted or run.undecided or any(r.status != "ok" for r in run.reports):
         before = len(run.findings)
         native_checks(run, 60 if run.tier == "thorough" else 20)
         if len(run.findings) > before:
@@ -178,11 +184,46 @@ def check(run):
             for f in run.findings[:before]:
                 f.confirmed = True
                 f.payload["native_confirmation"] = run.findings[before].what
+        # refutations about the filter-level by-name contracts: replay through the real filter (set and list containers)
+        if any(not f.confirmed for f in run.findings):
+            from replay import kalman
+
+            for cont in ("set", "list"):
+                for shp in ((3, 2, 2), (2, 3, 3)):
+                    run.native_runs += 1
+                    problems = kalman.native_update(shp, run.seed, container=cont)[0] or kalman.native_predict((shp[0], shp[1], 2), run.seed, container=cont)[0]
+                    if problems:
+                        for f in run.findings:
+                            if not f.confirmed:
+                                f.confirmed = True
+                                f.what += f" -- native: model n,c,m={shp} declared in {cont}s: {problems[0]}"
+                                f.payload["native_confirmation"] = problems[:4]
+                                f.payload["inputs"] = {"shape": list(shp), "seed": run.seed, "container": cont}
+                        break
+                else:
+                    continue
+                break
+        # candidate (non-definitive) refutations that did not reproduce natively are only undecided
+        keep = []
+        for f in run.findings:
+            if getattr(f, "definitive", True) or f.confirmed:
+                keep.append(f)
+            else:
+                run.undecided.append(f.obligation)
+        run.findings[:] = keep
     if run.tier == "thorough":
         native_renaming(run, 3)
 
 
 def replay_file(payload):
+    inp = payload.get("inputs", {})
+    if "shape" in inp and "container" in inp:
+        from replay import kalman
+
+        shp = tuple(inp["shape"])
+        problems = kalman.native_update(shp, inp.get("seed", 0), container=inp["container"])[0] or kalman.native_predict((shp[0], shp[1], 2), inp.get("seed", 0), container=inp["container"])[0]
+        print("replay C13 (filter level):", problems[:3] or "named outputs as specified")
+        return not problems
     run = driver.PropertyRun("C13", "quick", payload.get("inputs", {}).get("seed", 0))
     native_checks(run, 20)
     for f in run.findings:
